@@ -141,6 +141,25 @@ pub struct Shared {
     progress: AtomicU64,
 }
 
+/// kernel id of the calling thread (first field of `/proc/thread-self/stat`); 0 if unavailable
+pub fn os_thread_id() -> u64 {
+    std::fs::read_to_string("/proc/thread-self/stat").ok().and_then(|s| s.split(' ').next().and_then(|x| x.parse().ok())).unwrap_or(0)
+}
+
+/// user + system CPU time consumed by a thread of this process, in seconds
+fn thread_cpu_secs(os_tid: u64) -> Option<f64> {
+    if os_tid == 0 {
+        return None;
+    }
+    let s = std::fs::read_to_string(format!("/proc/self/task/{os_tid}/stat")).ok()?;
+    // fields after the parenthesised command name: state is field 3, utime 14, stime 15 (clock ticks, 100 per second)
+    let rest = &s[s.rfind(')')? + 2..];
+    let f: Vec<&str> = rest.split(' ').collect();
+    let ut: f64 = f.get(11)?.parse().ok()?;
+    let st: f64 = f.get(12)?.parse().ok()?;
+    Some((ut + st) / 100.0)
+}
+
 fn backoff(k: &mut u32) {
     *k += 1;
     if *k < 300 {
@@ -367,22 +386,60 @@ impl Shared {
         }
     }
 
-    /// main thread: wait until every worker has left; `Err(())` = no progress for `stall_secs` (a worker spins without reaching a yield point)
-    pub fn wait_all(&self, nthreads: usize, stall_secs: u64) -> Result<(), ()> {
+    /// main thread: wait until every worker has left.  WATCHDOG: `Err(thread)` = the thread holding the baton reached no
+    /// yield point and did not finish while it consumed `watchdog_secs` of CPU time (it spins inside a closure: its reads
+    /// come from its own log), or for `8 * watchdog_secs` of wall time.  CPU time (`/proc/self/task/<tid>/stat`) rather than
+    /// wall time: on a loaded machine a healthy worker may simply not be scheduled for a while.
+    pub fn wait_all(&self, nthreads: usize, watchdog_secs: u64, os_tids: &[u64]) -> Result<(), usize> {
         let mut k = 0;
         let mut last = (self.progress.load(Ordering::Relaxed), Instant::now());
+        let mut base: Option<(usize, f64)> = None;
         while self.exited.load(Ordering::SeqCst) < nthreads {
             backoff(&mut k);
             if k > 3000 && k % 1000 == 0 {
                 let p = self.progress.load(Ordering::Relaxed);
                 if p != last.0 {
                     last = (p, Instant::now());
-                } else if last.1.elapsed() > Duration::from_secs(stall_secs) {
-                    return Err(());
+                    base = None;
+                    continue;
+                }
+                let holder = self.turn.load(Ordering::SeqCst);
+                if holder == NOBODY || self.abort.load(Ordering::SeqCst) {
+                    // between two runs / tearing down: only the wall clock applies
+                    if last.1.elapsed() > Duration::from_secs(8 * watchdog_secs.max(1)) {
+                        return Err(0);
+                    }
+                    continue;
+                }
+                let cpu = os_tids.get(holder).and_then(|t| thread_cpu_secs(*t));
+                match (base, cpu) {
+                    (Some((h, c0)), Some(c)) if h == holder => {
+                        if c - c0 >= watchdog_secs as f64 {
+                            return Err(holder);
+                        }
+                    }
+                    (_, Some(c)) => base = Some((holder, c)),
+                    (_, None) => {
+                        if last.1.elapsed() > Duration::from_secs(watchdog_secs) {
+                            return Err(holder);
+                        }
+                    }
+                }
+                if last.1.elapsed() > Duration::from_secs(8 * watchdog_secs.max(1)) {
+                    return Err(holder);
                 }
             }
         }
         Ok(())
+    }
+
+    /// the transaction (unit of work) a thread is executing
+    pub fn current_unit(&self, tid: usize) -> usize {
+        self.lock().cur_tx.get(tid).copied().unwrap_or(0)
+    }
+
+    pub fn commit_order_so_far(&self) -> Vec<(u8, u16)> {
+        self.lock().commit_order.clone()
     }
 
     /// worker: wait for the first turn; false = the run was torn down before
